@@ -95,6 +95,8 @@ pub fn build(a: &LensArgs) -> LensCfg {
         "weak" => {
             cfg.name = "weak";
             cfg.codes = codes(&[New, Dup, Drop, Store, Take, Collect, Downgrade, Upgrade, DupWeak, DropWeak, TryUnwrap, WeakNew]);
+            // exact prediction of the buffered set (C11: an object leaves the buffer when downgraded, upgraded, unwrapped)
+            cfg.exact_buffer = true;
         },
         // Weak pointers inside objects + upgrading finalizers / destructors
         "weakfin" => {
